@@ -361,3 +361,61 @@ func init() {
 		Exhaust: true,
 	})
 }
+
+var runStubs = []string{"context.WithCancel (opaque child context + recorded cancel func)", "context.Background (opaque)", "sync/atomic.LoadInt32/StoreInt32 (plain accesses tagged atomic)", "go statement: watcher goroutine recorded, not run (cancellation never happens in C08)", "errors.New (opaque distinct object)", "log.Printf"}
+
+func init() {
+	register(&PropCheck{
+		ID:   "C08",
+		Dirs: []string{"z80"},
+		Jobs: func(tier string, seed int64) []Job {
+			var jobs []Job
+			k := 3
+			if tier == "thorough" {
+				k = 4
+			}
+			for bp := 0; bp <= 1; bp++ {
+				jobs = append(jobs, Job{Dir: "z80", Harness: "VC08Script", Params: []int{bp, k}, Label: fmt.Sprintf("VC08Script/bp%d/k%d", bp, k), MaxForks: 4096, MaxPaths: 100000})
+			}
+			for p := 0; p <= 11; p++ {
+				jobs = append(jobs, Job{Dir: "z80", Harness: "VC08Prog", Params: []int{p}, Label: fmt.Sprintf("VC08Prog/%d", p), MaxForks: 256})
+			}
+			return jobs
+		},
+		Bounds: map[string]interface{}{"scripted": "all programs of <= 3 (thorough 4) instructions drawn from {HALT, NOP, JP nn, LD BC,nn, INC A} with arbitrary operands, arbitrary start state and stale HALT flag, BreakPoints nil or an arbitrary set of <= 2 addresses; Run with the real Step vs a Step-driven twin with the stop rule written out", "skeletons": "12 concrete program skeletons (<= 8 Steps) on an address-consistent bus with symbolic registers/data: HALT first, NOPs+HALT, breakpoint on start PC / on the HALT / inside a 3-byte instruction / across PC wrap / on a jumped-to HALT, DJNZ loop, second Run on a halted CPU, OUT whose device raises NMI / INT (enabled, disabled)"},
+		Assume: []string{"cancellation never happens (C13 covers it)", "scripted memory is not address-consistent (it models arbitrary instruction streams); address-consistent behaviour is covered by the skeletons", "programs longer than the bound: by induction over loop iterations (Run keeps no state between iterations besides the CPU — checked by the twin equality at every length up to the bound)"},
+		Stubs:  runStubs,
+		Rule:   "2 scripted jobs (every path = one program shape x stop behaviour) + 12 skeleton jobs; obligations: return value, number of Steps, final States/HALT, write log or bus trace, memory",
+	})
+}
+
+func init() {
+	register(&PropCheck{
+		ID:   "C13",
+		Dirs: []string{"z80"},
+		Jobs: func(tier string, seed int64) []Job {
+			var jobs []Job
+			k := 3
+			if tier == "thorough" {
+				k = 4
+			}
+			for at := -1; at < k; at++ {
+				for bp := 0; bp <= 1; bp++ {
+					kk := k
+					if bp == 1 && tier != "thorough" {
+						kk = 2 // arbitrary breakpoint sets multiply the paths
+						if at >= kk {
+							continue
+						}
+					}
+					jobs = append(jobs, Job{Dir: "z80", Harness: "VC13Script", Params: []int{at, kk, bp}, Label: fmt.Sprintf("VC13Script/at%d/k%d/bp%d", at, kk, bp), MaxForks: 4096, MaxPaths: 100000})
+				}
+			}
+			return jobs
+		},
+		Bounds: map[string]interface{}{"programs": "all programs of <= 3 (thorough 4) instructions from {HALT, NOP, JP nn, LD BC,nn, INC A} with arbitrary operands and start state", "cancellation_instants": "before the call, or while instruction 0..k-1 is fetched; never = C08", "schedules": "the watcher goroutine runs to completion at the moment its context is cancelled (sequential model); every later schedule equals a later cancellation instant; weak-memory reorderings are not explored here (see the happens-before obligations)"},
+		Assume: []string{"context contract: Done() is closed after cancel() or parent cancellation, Err() is then non-nil", "wall-clock latency of the Go scheduler, runtime goroutine accounting and the context implementation itself are outside the claim: 'bounded delay' is decided as 'at most the instruction in flight completes once the flag is published'", "race-freedom: decided as event order (error written before the atomic flag store, flag read by an atomic load, cancel on every return path), not by executing interleavings"},
+		Stubs:  runStubs,
+		Rule:   "one job per cancellation instant; every path is one program shape; obligations: returned error is the context's, promptness, final state equals a whole number of Steps of a twin, watcher finished, event order",
+	})
+}
